@@ -2,7 +2,7 @@
 
     // C02 — safety provenance through operators, filters, loops, macros, captures, includes and inheritance is a
     // whole-program invariant over ~20 filters taking &State: no contract within reach. BOUNDED native stand-in.
-//# ob name=autoescape_programs_native role=native_bounded fn=filters::{escape,safe,replace,join,format,indent,trim,...}+vm::eval_impl+output::end_capture+defaults::default_auto_escape_callback kind=bounded bound="26 value-producing expressions over a context string with every HTML metacharacter (operators, 20 string/list filters, subscripts) x 11 wrappers (print, loop, macro, call block, set-block, filter block, with, include, block+super, nested capture, join with captured separator) x 2 data strings; template names {x.html, dir/x.v2.html, feed.atom.xml, x.html.j2, x.htm}; nested autoescape blocks" stmt="in *.html/*.xml templates that use no safe-marking construct, the characters < > \" ' from context data never appear raw in the output, and output already escaped when a macro / call block / set-block / filter block / include / block captured it is not escaped a second time"
+//# ob name=autoescape_programs_native role=native_bounded fn=filters::{escape,safe,replace,join,format,indent,trim,...}+vm::eval_impl+output::end_capture+defaults::default_auto_escape_callback kind=bounded bound="26 value-producing expressions over a context string with every HTML metacharacter (operators, 20 string/list filters, subscripts) x 13 wrappers (print, loop, macro, call block, set-block, filter block, with, include, block+super, nested capture, join with captured separator) x 2 data strings; template names {x.html, dir/x.v2.html, feed.atom.xml, x.html.j2, x.htm}; nested autoescape blocks" stmt="in *.html/*.xml templates that use no safe-marking construct, the characters < > \" ' from context data never appear raw in the output, and output already escaped when a macro / call block / set-block / filter block / include / block captured it is not escaped a second time"
     fn autoescape_programs_native() {
         use crate::Environment;
         let exprs: &[&str] = &[
@@ -22,6 +22,8 @@
             "{% extends 'base.html' %}{% block body %}{{ super() }}{{ E }}{% endblock %}",
             "{% set s %}{% set t %}{{ E }}{% endset %}{{ t }}{% endset %}{{ s }}",
             "{% set sep %}{{ E }}{% endset %}{{ [E, E]|join(sep) }}",
+            "{% set sep %}-{% endset %}{{ [[E], E, {'k': E}]|join(sep) }}",
+            "{% macro m() %}m{% endmacro %}{{ [m(), [E]]|join(', ') }}",
         ];
         let datas = ["<a href=\"x\">'q'</a>", "> only --> x"];
         for name in ["x.html", "dir/x.v2.html", "feed.atom.xml", "x.html.j2", "x.htm"] {
